@@ -524,14 +524,17 @@ def do_edit(rec, rng, obj, level, w):
                     rec.violation("setMassFracs/others-lost-proportion/%s" % level, "ratio %s/%s: %r -> %r" % (a, b, mf0[a] / mf0[b], mf1[a] / mf1[b]), w)
         elif op == "adjustMassFrac":
             mf0 = obj.getMassFracs()
-            if sum(v for n, v in mf0.items() if n != nuc) < 1e-9:
+            others_ = sum(v for n, v in mf0.items() if n != nuc)
+            if others_ < 1e-9:
                 rec.skip("adjustMassFrac where the adjusted nuclide is (nearly) all of the mass: no other nuclide can absorb the change")
                 return op
             val = rng.uniform(.01, .9)
             obj.adjustMassFrac(nuclideToAdjust=nuc, val=val)
             mf1 = obj.getMassFracs()
             rec.hit("readback")
-            if not rc(mf1.get(nuc, 0.0), val, 1e-9, 1e-15):
+            # the others are rescaled by (1 - val) / (1 - old fraction): when they hold only 1e-8 of the mass, 1 - old is known to 1e-16 / 1e-8
+            # in double precision, and so is the result (conditioning of the request, not of armi)
+            if not rc(mf1.get(nuc, 0.0), val, max(1e-9, 4e-15 / others_), 1e-15):
                 rec.violation("readback/adjustMassFrac/%s" % level, "adjustMassFrac(%s,%r) reads %r" % (nuc, val, mf1.get(nuc)), w)
             rest = [n for n in mf0 if n != nuc and mf0[n] > 0]
             if len(rest) >= 2 and mf1.get(rest[-1], 0) > 0:
